@@ -192,7 +192,11 @@ def main():
                "jobs).  Its last run, after the tenth round: 273 rows, all caught by the owning check's quick tier except two that had "
                "depended on one or two random cases and had been lost when the generators grew (C01-f; C03-c, -e, -g were found the "
                "same way) - directed case families on their own random streams now cover those shapes, so they no longer depend on "
-               "the stream.  Generators draw new case families from separate streams for the same reason.\n")
+               "the stream.  Generators draw new case families from separate streams for the same reason.  The same regression under "
+               "VERIF_SEED=1 (quick tier) catches 267 of the 273; six seeds are caught with the default seed but not with seed 1 at the quick "
+               "tier - C07-a, C19-g, C16-h, C02-i, C13-i, C23-i: their failing inputs are reached by a few random cases only, the quick tier "
+               "can miss them depending on the seed, and directed families for them were not written for lack of time (the thorough "
+               "tier draws 8 to 16 times as many cases).\n")
     res = open(os.path.join(VERIF, "seeded", "RESULTS.md")).read()
     out.append(res[res.index("| seed |"):])
     with open(os.path.join(VERIF, "DESIGN.md"), "w") as f:
